@@ -36,8 +36,10 @@ def history(rng, n):
         elif r < 0.9:
             ops.append({"op": "bus_write", "a": rng.choice([0xF0, 0xF1, 0xF2, 0xF2, 0xF3, 0xF9, 0xFA, 0xFB, 0xFC, 0xFD, 0xFE, 0xFF, rng.randrange(240),
                                                              0, 1, 14, 15, 17, 18, 19, 28, 29, 30, 0xEE, 0xEF, 0xEF]), "v": rng.randrange(256)})
-        elif r < 0.94:
+        elif r < 0.93:
             ops.append({"op": rng.choice(["cpu_reset", "master_reset"])})
+        elif r < 0.97:
+            ops += ic.board_irq_ops(rng)
         # after every prefix: each kind of reset on a clone
         if rng.random() < 0.6:
             ops.append({"op": "probe", "kind": "cpu_reset"})
